@@ -88,10 +88,20 @@ def setW (w : Nat → Waiter) (j : Nat) (x : Waiter) : Nat → Waiter :=
 def keyLe (w : Nat → Waiter) (a b : Nat) : Bool :=
   decide ((w a).pri < (w b).pri) || (decide ((w a).pri = (w b).pri) && decide ((w a).arr ≤ (w b).arr))
 
+/-- ordered insertion by `(priority, arrival)` -/
+def insertKey (w : Nat → Waiter) (x : Nat) : List Nat → List Nat
+  | [] => [x]
+  | y :: ys => if keyLe w x y then x :: y :: ys else y :: insertKey w x ys
+
+/-- the queue sorted by `(priority, arrival)` — the pop order of the priority queue -/
+def sortQ (w : Nat → Waiter) : List Nat → List Nat
+  | [] => []
+  | x :: xs => insertKey w x (sortQ w xs)
+
 /-- `ordereditems()` for PriorityCondition, the deque itself for InterruptCondition -/
 def orderedQ (k : Kind) (w : Nat → Waiter) (q : List Nat) : List Nat :=
   match k with
-  | .pc => q.mergeSort (keyLe w)
+  | .pc => sortQ w q
   | .ic => q
 
 def isPending (w : Nat → Waiter) (t : Nat) : Bool := (w t).fut == .pending
